@@ -98,6 +98,16 @@ def enumerate_paths(f, stop=None, may_throw=None, max_visits=2, limit=200000, in
                         for d in n.get("decls", []):
                             for k in [k for k in val if mentions(k, d.get("name", "\0"))]:
                                 del val[k]
+                            if d.get("init") is not None and d.get("ct") in ("bool", "int", "unsigned int", "unsigned long", "long"):
+                                cvv = const_value(f, d["init"])
+                                if cvv is not None:
+                                    val[d["name"]] = bool(cvv)
+                    if n["k"] == "BinaryOperator" and n.get("op") == "=":
+                        lhs = f.strip(f.node(n["lhs"]))
+                        if lhs is not None and lhs["k"] == "DeclRefExpr" and not lhs.get("global"):
+                            cvv = const_value(f, f.node(n["rhs"]))
+                            if cvv is not None:
+                                val[lhs["name"]] = bool(cvv)
                     if invalidate_on_call and n["k"] in CALL_KINDS:
                         for k in [k for k in val if invalidate_on_call(f, n, k)]:
                             del val[k]
@@ -195,20 +205,12 @@ def enumerate_paths(f, stop=None, may_throw=None, max_visits=2, limit=200000, in
                 if decide is not None:
                     decisions = decisions + [("decided:" + render(f, cn), bool(known), blk["id"], blk["cond"])]
                 continue
-            key, pol = atom(f, cn)
-            if assume is not None and key in assume and key not in val:
-                val[key] = assume[key]
-                b = t if (val[key] == pol) else fl
-                if b is None:
-                    return
-                continue
-            # fork
-            for truth, s in ((True, t), (False, fl)):
-                if s is None:
+            # fork on the first undecided leaf (short-circuit order) until the whole condition is decided
+            for v2, d2, outcome in resolve(f, cn, val, decisions, b, blk["cond"], decide, follow_const, assume):
+                s2 = t if outcome else fl
+                if s2 is None:
                     continue
-                v2 = dict(val)
-                v2[key] = (pol if truth else (not pol))
-                run(s, v2, decisions + [(key, v2[key], b, blk["cond"])], trace, visits, blocks)
+                run(s2, v2, d2, trace, visits, blocks)
             return
 
     import sys
@@ -219,6 +221,59 @@ def enumerate_paths(f, stop=None, may_throw=None, max_visits=2, limit=200000, in
     finally:
         sys.setrecursionlimit(old)
     return paths
+
+
+def _leaves(f, n):
+    n0 = f.strip(n, casts=False)
+    while n0 is not None and n0["k"] == "ImplicitCastExpr" and n0.get("c"):
+        n0 = f.strip(n0["c"][0], casts=False)
+    if n0 is None:
+        return []
+    if n0["k"] == "UnaryOperator" and n0.get("op") == "!":
+        return _leaves(f, n0["c"][0])
+    if n0["k"] == "BinaryOperator" and n0.get("op") in ("&&", "||"):
+        return _leaves(f, f.node(n0["lhs"])) + _leaves(f, f.node(n0["rhs"]))
+    return [n0]
+
+
+def resolve(f, cn, val, decisions, b, cid, decide, follow_const, assume):
+    """expand undecided leaves of a (possibly compound) condition in evaluation order.
+    yields (valuation, decisions, truth of the whole condition)"""
+    out = []
+
+    def go(val, decisions, depth):
+        known = eval_cond(f, cn, val, decide, follow_const)
+        if known is not None:
+            out.append((val, decisions, known))
+            return
+        if depth > 12:
+            key, pol = atom(f, cn)
+            for truth in (True, False):
+                v2 = dict(val)
+                v2[key] = pol if truth else (not pol)
+                out.append((v2, decisions + [(key, v2[key], b, cid)], truth))
+            return
+        for leaf in _leaves(f, cn):
+            if eval_cond(f, leaf, val, decide, follow_const) is None:
+                key, pol = atom(f, leaf)
+                if assume is not None and key in assume:
+                    v2 = dict(val)
+                    v2[key] = assume[key]
+                    go(v2, decisions, depth + 1)
+                    return
+                for truth in (True, False):
+                    v2 = dict(val)
+                    v2[key] = pol if truth else (not pol)
+                    go(v2, decisions + [(key, v2[key], b, leaf["id"])], depth + 1)
+                return
+        # no undecided leaf but still unknown (should not happen): fork on the whole expression
+        key, pol = atom(f, cn)
+        for truth in (True, False):
+            v2 = dict(val)
+            v2[key] = pol if truth else (not pol)
+            out.append((v2, decisions + [(key, v2[key], b, cid)], truth))
+    go(val, decisions, 0)
+    return out
 
 
 def eval_cond(f, cn, val, decide=None, follow_const=True):
